@@ -1137,6 +1137,45 @@ theorem VerifyHTLCProof_eq (env : Env) (extU : String → HTLCWitness → HTLCWi
             simp only [hN, hN', decide_false, Bool.false_eq_true, if_false]
             split <;> split <;> (try split) <;> (try split) <;> simp_all [absErr, errOf]
 
+/-! ## cashu/nuts/nut11: PublicKeys (the keys that may sign the outputs of a SIG_ALL swap; C12, C13) -/
+
+/-- `([]*btcec.PublicKey, error)` read as the model's result -/
+def absKeys : List PublicKey × Option String → Res (List Key)
+  | (_, some e) => .err (errOf e)
+  | (ks, none) => .ok ks
+
+/-- the regenerated `nut11.PublicKeys` is the model's `publicKeys`: the `pubkeys` tag, followed by the key of `data`
+    for a P2PK secret (kind 1) and by nothing else — in particular never by the refund keys -/
+theorem PublicKeys_eq (env : Env) (secret : WellKnownSecret) (k : Kind) (hk : (k = .p2pk) ↔ secret.Kind = 1) :
+    absKeys (nut11_PublicKeys extPI (extPK env) secret) =
+      publicKeys env { kind := k, data := secret.Data.Data, tags := secret.Data.Tags } := by
+  unfold nut11_PublicKeys publicKeys
+  have hpe := ParseP2PKTags_eq env secret.Data.Tags
+  have hwf := ParseP2PKTags_wf env secret.Data.Tags
+  rcases hr : nut11_ParseP2PKTags extPI (extPK env) secret.Data.Tags with ⟨ot, oe⟩
+  rw [hr] at hpe hwf
+  cases oe with
+  | some e =>
+    simp only [absRes] at hpe
+    simp only [← hpe, Option.isNone_some, Bool.not_false, if_true]
+    rfl
+  | none =>
+    cases ot with
+    | none => simp at hwf
+    | some t =>
+      simp only [absRes] at hpe
+      simp only [← hpe, Option.isNone_none, Bool.not_true, Bool.false_eq_true, if_false, Option.getD_some]
+      by_cases h1 : secret.Kind = 1
+      · have hk' : k = .p2pk := hk.mpr h1
+        simp only [h1, hk', beq_self_eq_true, if_true]
+        unfold extPK
+        cases hp : env.parseKey secret.Data.Data with
+        | none => simp [absKeys, errOf]
+        | some key => simp [absKeys, tagsOf]
+      · have hk' : ¬ (k = .p2pk) := fun h => h1 (hk.mp h)
+        have hb : (secret.Kind == 1) = false := by simpa using h1
+        simp [hb, hk', absKeys, tagsOf]
+
 end ParseTags
 
 /-! ## non-vacuity: the regenerated definitions compute (closed instances, evaluated by the kernel) -/
